@@ -124,6 +124,17 @@ func c07Inputs(tier string) []decInput {
 			addStructured(0x82, true, lenForm{8, d}, pres, 70000)
 		}
 	}
+	// (iii') a complete frame followed by a frame of a longer length class that is still incomplete: the bytes the
+	// first frame left behind in the buffer must never be taken for length or mask bytes that have not arrived
+	for _, first := range []string{"hello, websocket", "\xff\xff\xff\xff\xff\xff\xff\xff\xff\xff\xff\xff"} {
+		for _, masked := range []bool{false, true} {
+			for _, d := range []uint64{126, 300, 65536, 70000} {
+				f1 := wsref.Frame{Fin: true, Op: wsref.OpText, Payload: []byte(first)}
+				f2 := wsref.Frame{Fin: true, Op: wsref.OpBinary, Masked: masked, Key: [4]byte{0x11, 0x22, 0x33, 0x44}, Decl: u64p(d), Payload: []byte{1, 2, 3}}
+				ins = append(ins, decInput{fmt.Sprintf("frame %q then incomplete frame of %d bytes masked=%v", first, d, masked), append(f1.Encode(), f2.Encode()...), 70000})
+			}
+		}
+	}
 	// (iii) two valid frames back to back
 	for _, l1 := range []int{0, 1, 125, 126, 200} {
 		for _, l2 := range []int{0, 1, 126} {
